@@ -118,7 +118,13 @@ class Analysis:
         "core::convert::num::<impl core::convert::From<bool> for u8>::from": (0, 1),
         "core::convert::num::<impl core::convert::From<bool> for u64>::from": (0, 1),
         "core::convert::num::<impl core::convert::From<bool> for usize>::from": (0, 1),
+        # foreign post-conditions (read in alloy-rlp 0.3 / fastrlp 0.3, 0.4 encode.rs): 1 for payloads < 56 bytes,
+        # else 1 + (8 - leading_zeros(len) / 8) <= 9
+        "alloy_rlp::encode::length_of_length": (1, 9),
+        "fastrlp::encode::length_of_length": (1, 9),
     }
+    SIZE_OF = {"u8": 1, "i8": 1, "u16": 2, "i16": 2, "u32": 4, "i32": 4, "u64": 8, "i64": 8, "u128": 16, "i128": 16,
+               "usize": 8, "isize": 8, "bool": 1}
 
     def __init__(self, view, arg_intervals=None, summaries=None, ret_len=None, ret_discr=None, forced=None,
                  ret_interval=None, canonical_args=False, ret_paths=None):
@@ -1065,6 +1071,10 @@ class Analysis:
                 iv = (max(0, a[0] - b[1]), max(0, a[1] - b[0]))
         elif name in self.KNOWN_RANGES:
             iv = self.KNOWN_RANGES[name]
+        elif name == "core::mem::size_of" and not args:
+            targs = [x.get("n") for x in t["fn"].get("args", []) if isinstance(x, dict) and x.get("k") == "prim"]
+            if len(targs) == 1 and targs[0] in self.SIZE_OF:
+                iv = (self.SIZE_OF[targs[0]], self.SIZE_OF[targs[0]])
         elif name in ("core::char::convert::<impl core::convert::From<char> for u64>::from",
                       "core::char::convert::<impl core::convert::From<char> for u32>::from",
                       "core::convert::num::<impl core::convert::From<u8> for u64>::from",
@@ -1170,15 +1180,16 @@ class Analysis:
                 iv = sm(self, st, args)
             elif self.ret_interval is not None and rng is not None and name in self.v.prog.bodies:
                 iv = self.ret_interval(name, t, self, st)
-        obs = None
-        if name is not None and name in self.v.prog.bodies and a0_local is not None and len(args) == 1 \
+        obs, obs_range = None, False
+        if name is not None and name in self.v.prog.bodies and len(args) == 1 \
                 and self.v.prog.bodies[name]["file"] == "src/bits.rs":
             if name.endswith(">::bit_len"):
                 obs = "bitlen"
             elif name.endswith(">::leading_zeros"):
                 obs = "lz"
+            obs_range = obs is not None and self._callee_width_is_own(t)
             if obs is not None:
-                ua = self.uint_arg_of(a0_local)
+                ua = self.uint_arg_of(a0_local) if a0_local is not None else None
                 obs = (obs, ua) if ua is not None else None
         inrange = None
         if name is not None and name.endswith("::contains") and name.startswith("core::ops::range::Range") and len(args) == 2:
@@ -1191,9 +1202,9 @@ class Analysis:
             st.rel[d] = inrange
         if obs is not None and d not in self.escaped:
             st.rel[d] = obs
-            if self.v.cfg is not None:
-                # trusted (C06): bit_len and leading_zeros of a BITS-wide value lie in [0, BITS]
-                iv = (0, self.v.cfg[0]) if iv is None else meet(iv, (0, self.v.cfg[0]))
+        if obs_range and self.v.cfg is not None and rng is not None:
+            # trusted (C06): bit_len and leading_zeros of a BITS-wide value lie in [0, BITS]
+            iv = (0, self.v.cfg[0]) if iv is None else meet(iv, (0, self.v.cfg[0]))
         if restore is not None:
             x, elems = restore
             if x in self.arrlen and x not in self.escaped:
@@ -1231,6 +1242,14 @@ class Analysis:
                     st.sym[("pl", d, p_)] = v
             for p_, v in ubs.items():
                 st.ub[("pl", d, p_)] = v
+
+    def _callee_width_is_own(self, t):
+        """The callee is instantiated for this body's own (BITS, LIMBS) (not e.g. Uint<536, 9> inside a generic fn)."""
+        ra = t["fn"].get("res_args") or t["fn"].get("args") or []
+        cs = [x for x in ra if isinstance(x, dict) and "c" in x]
+        if len(cs) < 2:
+            return False
+        return cs[0].get("c") == "param" and cs[0].get("n") == "BITS" and cs[1].get("c") == "param" and cs[1].get("n") == "LIMBS"
 
     def _deref_local(self, l, depth=6):
         """Follow `&*r` / `&x` / copies of references back to the local (or promoted constant) they denote."""
